@@ -158,13 +158,7 @@ theorem conflict_free_linearizable (sh : Shared) (progs : List (List Step)) (h :
       rw [ht'] at hr
       exact result_of_alone hr
 
-/-- decidable form of `ConflictFree` -/
-def disjointB (ws rs : List Nat) : Bool := ws.all fun c => !rs.contains c
-
-def conflictFreeB (progs : List (List Step)) : Bool :=
-  (List.range progs.length).all fun i => (List.range progs.length).all fun j =>
-    i == j || disjointB (writeCells (progs.getD j [])) (readCells (progs.getD i []))
-
+/-- `conflictFreeB` (Sem/Sched.lean) is the decidable form of `ConflictFree` -/
 theorem conflictFreeB_sound {progs : List (List Step)} (h : conflictFreeB progs = true) : ConflictFree progs := by
   intro i j p q hij hp hq c hc hr
   have hi : i < progs.length := (List.getElem?_eq_some_iff.mp hp).1
@@ -198,23 +192,23 @@ def arrB : List Step := progHomog 0 "a" true [(20, true), (21, true), (22, true)
 
 /-- site `array.py:extract_field_value`: thread 1 silently returns `[20, 20, 22]` -/
 theorem counter_wrong_element_extract_field_value :
-    resultAt (run (Cfg.init sh0 [arrA, arrB]) [1,1,1,1,1,1,0,0,1,1,1,1,0,0]) 1 = some (.ok [20, 20, 22]) ∧
+    resultAt (run (Cfg.init sh0 [arrA, arrB]) [1,1,1,1,1,1,1,0,0,0,1,1,1,1,0,0]) 1 = some (.ok [20, 20, 22]) ∧
     sequentialResult sh0 arrB = some (.ok [20, 21, 22]) := by decide
 
 /-- site `array.py:extract_field_value`: thread 0 raises AttributeError `a_2` for the valid input `[10]` -/
 theorem counter_missing_key_extract_field_value :
-    resultAt (run (Cfg.init sh0 [arrA, arrB]) [0,0,0,1,1,1,1,1,1,1,1,0]) 0 = some (.raised (.missing "a_2")) ∧
+    resultAt (run (Cfg.init sh0 [arrA, arrB]) [0,0,0,0,1,1,1,1,1,1,1,1,1,0]) 0 = some (.raised (.missing "a_2")) ∧
     sequentialResult sh0 arrA = some (.ok [10]) := by decide
 
 /-- site `array.py:extract_field_value`: the error of thread 0's invalid `[-1]` names element `a_1` of the other thread -/
 theorem counter_wrong_field_named_extract_field_value :
-    resultAt (run (Cfg.init sh0 [progHomog 0 "a" true [(-1, false)], arrB]) [0,0,1,1,1,1,1,0]) 0
+    resultAt (run (Cfg.init sh0 [progHomog 0 "a" true [(-1, false)], arrB]) [0,0,0,1,1,1,1,1,1,0]) 0
       = some (.raised (.invalid "a_1")) ∧
     sequentialResult sh0 (progHomog 0 "a" true [(-1, false)]) = some (.raised (.invalid "a_0")) := by decide
 
 theorem not_linearizable_extract_field_value : ¬ Linearizable sh0 [arrA, arrB] := by
   intro h
-  obtain ⟨p, hp, hs⟩ := h [1,1,1,1,1,1,0,0,1,1,1,1,0,0] 1 (.ok [20, 20, 22])
+  obtain ⟨p, hp, hs⟩ := h [1,1,1,1,1,1,1,0,0,0,1,1,1,1,0,0] 1 (.ok [20, 20, 22])
     counter_wrong_element_extract_field_value.1
   have : p = arrB := by simpa using hp.symm
   rw [this, counter_wrong_element_extract_field_value.2] at hs
@@ -223,7 +217,7 @@ theorem not_linearizable_extract_field_value : ¬ Linearizable sh0 [arrA, arrB] 
 /-- site `tuple_field.py:Tuple.__set__` (homogeneous `Tuple[Integer]`): wrong element without any error -/
 theorem counter_wrong_element_tuple :
     resultAt (run (Cfg.init sh0 [progHomog 0 "a" false [(10, true)],
-        progHomog 0 "a" false [(20, true), (21, true), (22, true)]]) [1,1,1,1,1,0,1,1,1,1,0,0]) 1
+        progHomog 0 "a" false [(20, true), (21, true), (22, true)]]) [1,1,1,1,1,1,0,0,1,1,1,1,0,0]) 1
       = some (.ok [20, 20, 22]) ∧
     sequentialResult sh0 (progHomog 0 "a" false [(20, true), (21, true), (22, true)]) = some (.ok [20, 21, 22]) := by
   decide
@@ -245,7 +239,7 @@ theorem counter_missing_key_map :
     items whose Field instances are shared by the fields `a` and `b` -/
 theorem counter_missing_key_positional :
     resultAt (run (Cfg.init sh0 [progPos 0 "a" 2 [(1, true), (2, true)], progPos 0 "b" 2 [(3, true), (4, true)]])
-        [0,0,1,0]) 0 = some (.raised (.missing "b_0")) ∧
+        [0,0,0,1,1,0]) 0 = some (.raised (.missing "b_0")) ∧
     sequentialResult sh0 (progPos 0 "a" 2 [(1, true), (2, true)]) = some (.ok [1, 2]) := by decide
 
 /-- the full statement is false -/
@@ -288,8 +282,8 @@ theorem tables_nonvacuous :
 theorem linearizable_example :
     conflictFreeB [progHomog 0 "a" true [(10, true)], progHomog 1 "a" true [(20, true), (21, true)]] = true ∧
     resultAt (run (Cfg.init sh0 [progHomog 0 "a" true [(10, true)], progHomog 1 "a" true [(20, true), (21, true)]])
-      [0,1,0,1,0,1,0,1,1,1,1]) 0 = some (.ok [10]) ∧
+      [0,1,0,1,0,1,0,1,0,1,1,1,1]) 0 = some (.ok [10]) ∧
     resultAt (run (Cfg.init sh0 [progHomog 0 "a" true [(10, true)], progHomog 1 "a" true [(20, true), (21, true)]])
-      [0,1,0,1,0,1,0,1,1,1,1]) 1 = some (.ok [20, 21]) := by decide
+      [0,1,0,1,0,1,0,1,0,1,1,1,1]) 1 = some (.ok [20, 21]) := by decide
 
 end Typedpy.C20
